@@ -21,6 +21,17 @@ func genCPUProgram(r *engine.Rand, sc *engine.Scenario, n int) {
 	g := &progGen{r: r, base: base}
 	g.emitStackSetup()
 	for i := 0; i < n; i++ {
+		if r.Chance(1, 5) {
+			// the tested instruction directly after a jump/call/return (see emitPair)
+			cb := r.Chance(1, 2)
+			op := r.Byte()
+			if !cb {
+				op = engine.Pick(r, lockstepOps)
+			}
+			if g.emitPair(engine.Pick(r, pairPrev), op, cb) {
+				continue
+			}
+		}
 		if r.Chance(2, 5) {
 			g.emitUnit(r.Byte(), true, false)
 		} else {
